@@ -93,7 +93,7 @@ class Align(JupyterMixin):
 
         align = self.align
 
-        width = Measurement.get(console, self.renderable).maximum
+        width = max(1, Measurement.get(console, self.renderable).maximum)
 
         rendered = console.render(
             Constrain(
